@@ -65,6 +65,11 @@ def judge_translate(f, ref, w, sub="translate", extra_tags=()):
     got = []
     try:
         with core.step_budget(budget):
+            if len(w) == 1 or len(exp) == 2:
+                # a caller may stop reading the translations early (first result only) and ask again
+                for _ in f.translate(list(w)):
+                    break
+                core.LOG.count("C16.abandoned_generators")
             for o in f.translate(values.word_form(w, len(w) + len(exp))):
                 got.append(tuple(o))
     except core.StepBudgetExceeded:
@@ -317,4 +322,20 @@ def run_case(c, stats):
                 if not rt.eps_cycle_writes():
                     for w in rn.all_words(sorted(ref.alpha, key=repr)[-2:], 2):
                         judge_translate(t, rt, w, sub="translate_of_to_fst")
+            # the automaton is edited after the conversion (edit script, and its start state moved) and converted
+            # again: the contract on to_fst judges the new transducer against the automaton as it is now
+            gfa.apply_edits(fa, c["fa"])
+            sts = sorted(fa.states, key=lambda x: repr(x.value))
+            if sts:
+                for s0 in list(fa.start_states):
+                    call(fa.remove_start_state, s0)
+                call(fa.add_start_state, sts[-1])
+            ok2, t2 = call(fa.to_fst)
+            if ok2:
+                with core.oracle_mode():
+                    ref2 = extract.fa(fa)
+                    rt2 = extract.fst(t2)
+                    if not rt2.eps_cycle_writes():
+                        for w in rn.all_words(sorted(ref2.alpha, key=repr)[-2:], 2):
+                            judge_translate(t2, rt2, w, sub="translate_of_to_fst")
     return nt
